@@ -258,11 +258,14 @@ def is_flag_value(node):
         and node.value.id in ("QartodFlags", "FLAGS") and node.attr in FLAG_NAMES
 
 
-def skeleton(fn):
-    """the sequence of `flag_arr[...] = QartodFlags.X` statements of a test function, in source order, each with
-    the tests of its enclosing `if`s (and the negated tests of earlier `if ...: return` blocks)"""
+def skeleton_stmts(stmts_in, no_inline=False):
+    """the sequence of `flag_arr[...] = QartodFlags.X` statements of a block, in source order, each with
+    the tests of its enclosing `if`s (and the negated tests of earlier `if ...: return / continue` blocks).
+    A test the translator cannot express becomes an OPAQUE guard `@opaque<k>` (a boolean the environment must
+    supply) when it only decides whether the rest of the block runs; flag assignments beneath it are refused."""
     steps = []
     inline = {}
+    opaque = [0]
 
     def walk(stmts, guards):
         guards = list(guards)
@@ -285,22 +288,42 @@ def skeleton(fn):
                     need(isinstance(tg.value.slice, ast.Slice), f"skeleton: unsupported flag view, line {st.lineno}")
                     g = "[" + "; ".join(guards) + "]"
                     steps.append(f"SWhereSl {g} {slice_kind(tg.value.slice)} {sexp(tg.slice, inline)} {st.value.attr}")
-                elif isinstance(tg, ast.Name) and isinstance(st.value, (ast.Compare, ast.BinOp)) \
+                elif not no_inline and isinstance(tg, ast.Name) and isinstance(st.value, (ast.Compare, ast.BinOp)) \
                         and (isinstance(st.value, ast.Compare) or isinstance(st.value.op, (ast.BitOr, ast.BitAnd))):
                     inline[tg.id] = st.value          # mloc = lon.mask & lat.mask
             elif isinstance(st, ast.If):
                 t = sexp(st.test, inline) if _translatable(st.test, inline) else None
+                leaves = bool(st.body) and isinstance(st.body[-1], (ast.Return, ast.Continue, ast.Break)) and not st.orelse
                 if t is None:
                     need(not _has_flag_assign(st), f"skeleton: flag assignment under an untranslatable guard, line {st.lineno}")
+                    if leaves:
+                        opaque[0] += 1
+                        guards.append(f"(SInv (SName {coq_string('@opaque' + str(opaque[0]))}))")
                     continue
                 walk(st.body, guards + [t])
                 walk(st.orelse, guards + [f"(SInv {t})"])
-                if st.body and isinstance(st.body[-1], ast.Return) and not st.orelse:
-                    guards.append(f"(SInv {t})")       # the rest of the block runs only if we did not return
+                if leaves:
+                    guards.append(f"(SInv {t})")       # the rest of the block runs only if we did not leave it
             elif isinstance(st, ast.With):
                 walk(st.body, guards)
-    walk(fn.body, [])
+            elif isinstance(st, (ast.For, ast.While, ast.Try, ast.FunctionDef)):
+                need(not _has_flag_assign(st), f"skeleton: flag assignment inside a loop / try / nested function, line {st.lineno}")
+    walk(stmts_in, [])
     return steps
+
+
+def skeleton(fn):
+    return skeleton_stmts(fn.body)
+
+
+def skeleton_loop(fn):
+    """a function whose flag assignments sit before, inside and after ONE top-level `for` loop:
+    -> (steps before, steps of one iteration, steps after)"""
+    loops = [st for st in fn.body if isinstance(st, ast.For) and _has_flag_assign(st)]
+    need(len(loops) == 1, f"skeleton: expected exactly one top-level loop with flag assignments, found {len(loops)}")
+    k = fn.body.index(loops[0])
+    need(not loops[0].orelse, "skeleton: for ... else")
+    return (skeleton_stmts(fn.body[:k]), skeleton_stmts(loops[0].body, no_inline=True), skeleton_stmts(fn.body[k + 1:]))
 
 
 def _translatable(node, inline):
@@ -631,6 +654,14 @@ def generate(repo):
             need(st, f"skeleton of {name} is empty")
             return [f"Definition skel_{name} : list sstep := [", ";\n".join("  " + x for x in st), "]."]
         item(f"skel_{name}", _skel)
+    def _skel_clim():
+        pre, body, post = skeleton_loop(fn_of(qartod, "check", "ClimatologyConfig"))
+        need(pre and body and post, "skeleton of ClimatologyConfig.check: an empty part")
+        out = []
+        for nm, st in (("pre", pre), ("member", body), ("post", post)):
+            out += [f"Definition skel_climatology_check_{nm} : list sstep := [", ";\n".join("  " + x for x in st), "]."]
+        return out
+    item("skel_climatology_check", _skel_clim)
     w("")
     # array programs: the computation of the intermediate float arrays (meaning: Arr.run_prog; tied to the
     # hand-written models by ArrP_*.v)
